@@ -707,3 +707,40 @@ Definition rres {A} (r : A -> rdr) (m : res A) : rdr :=
   | Ok a => fun k => rstr "{""ok"":" (r a (rstr "}" k))
   | Err e => fun k => rstr "{""err"":" (rkind e (rstr "}" k))
   end.
+
+(* ------------------------------------------------- "the same value" across layers *)
+(* `veq a b`: b holds the value a in container form — what OmegaConf forgets is
+   forgotten (a tuple becomes a list, an attrs object / dict becomes a dict with the
+   same keys in the same order, an int may have become the float of the same value);
+   every scalar is otherwise identical. *)
+Fixpoint veq (a b : cfg) {struct a} : bool :=
+  match a with
+  | VInt z => match b with
+              | VInt z' => Z.eqb z z'
+              | VFloat q => q_eqb q (inject_Z z)
+              | _ => false
+              end
+  | VList x | VTup x =>
+      match b with
+      | VList y =>
+          (fix go (x y : list cfg) {struct x} : bool :=
+             match x, y with
+             | [], [] => true
+             | a' :: x', b' :: y' => veq a' b' &&& go x' y'
+             | _, _ => false
+             end) x y
+      | _ => false
+      end
+  | VDict x | VObj _ x =>
+      match b with
+      | VDict y =>
+          (fix go (x y : list (string * cfg)) {struct x} : bool :=
+             match x, y with
+             | [], [] => true
+             | (k, a') :: x', (k', b') :: y' => String.eqb k k' &&& veq a' b' &&& go x' y'
+             | _, _ => false
+             end) x y
+      | _ => false
+      end
+  | _ => cfg_eqb a b
+  end.
